@@ -21,7 +21,8 @@ Inductive pv :=
 | PNaN                   (* float('nan') *)
 | PStr (s: string)
 | POpq (n: nat)          (* any other object; numbered up to Python == by the harness *)
-| PDict (kvs: list (string * pv)).   (* the mapping produced for a nested dataclass *)
+| PDict (kvs: list (string * pv))    (* the mapping produced for a nested dataclass *)
+| PList (l: list pv).                (* the list produced for a List[<dataclass>] field *)
 
 Definition is_none (v: pv) : bool := match v with PNone => true | _ => false end.
 Definition is_nan (v: pv) : bool := match v with PNaN => true | _ => false end.
@@ -39,6 +40,12 @@ Fixpoint pv_eqb (a b: pv) {struct a} : bool :=
          match l1, l2 with
          | [], [] => true
          | (k1, v1) :: r1, (k2, v2) :: r2 => String.eqb k1 k2 && pv_eqb v1 v2 && deqb r1 r2
+         | _, _ => false end) x y
+  | PList x, PList y =>
+      (fix leqb (l1 l2: list pv) : bool :=
+         match l1, l2 with
+         | [], [] => true
+         | v1 :: r1, v2 :: r2 => pv_eqb v1 v2 && leqb r1 r2
          | _, _ => false end) x y
   | _, _ => false end.
 
